@@ -62,6 +62,10 @@ func (m *RWMutex) Lock(ctx context.Context, write bool) (func(), error) {
 				// 0: waiting for lock
 				if write {
 					m.writeWaiting--
+					// wake readers that were queued behind this waiting writer
+					if m.writeWaiting == 0 {
+						broadcast()
+					}
 				}
 			} else {
 				// 1: we have the lock
